@@ -97,7 +97,7 @@ def run(ctx):
     d, rng = ctx.driver, ctx.rng
     quick = ctx.tier == "quick"
     fams = ["diagonal", "restricted1", "sso1", "gso1", "diagcoulomb", "mixed", "mixed", "few"]
-    ncases = 96 if quick else 1500
+    ncases = 96 if quick else 6000
     for case in range(ncases):
         fam = fams[case % len(fams)]
         norb = rng.choice([1, 2, 2, 3]) if fam != "diagcoulomb" else rng.choice([2, 2, 3])
